@@ -267,7 +267,7 @@ pub fn run(rep: &mut Report) {
     let q = false;
     rep.rule = "epoch lattice EL(src) (duration lattice within +-10 500 years, windows round every scale's zero, J2000, the year 0001/9999 bounds and every leap-second entry) x all 36 ordered pairs of the six uniform scales: to_time_scale, to_duration_in_time_scale, the named accessor, the named constructor and the round trip (for TAI also to_tai_parts / from_tai_parts / to_duration_since_j1900); the float constructors from_<scale>_seconds / _days on a 76-value float lattice (C18's conversion rule); commutation with + d for 16 boundary durations; all public constants against civil-date-derived values; float views; stateright BFS over every sequence of conversions up to depth 3 (quick) / 4 (thorough). Oracle: one i128 subtraction of derived zero points. Non-trivial = src != dst and a count within one second of a century boundary or of zero on either side.".into();
     rep.assumptions = vec!["zero points derived from the civil dates and offsets in the statement (1980-01-06 +19 s, 1999-08-22 +19 s, 2006-01-01 +33 s, TT = TAI + 32.184 s)".into()];
-    let w = if deep { 262_144 } else { 256 };
+    let w = if deep { 262_144 } else { 16_384 };
     let lw = if q { None } else { Some((-3i64, 40i64)) };
     let els: Vec<Vec<i128>> = UNIFORM.iter().map(|s| lattice::el(*s, w, lw)).collect();
     rep.bound("EL_sizes", els.iter().map(|e| e.len() as u64).collect::<Vec<_>>());
